@@ -1,3 +1,2 @@
--- This module serves as the root of the `CtrlVerif` library.
--- Import modules here that should be built as part of the library.
-import CtrlVerif.Basic
+import CtrlVerif.Driver.All
+import CtrlVerif.Props.C01
